@@ -29,6 +29,26 @@ var guardFuncNames = map[string]string{
 	"lisp.(*detacher).seen":                      "",
 }
 
+// cycleOnlyGuards: guards that stop a walk from going round a cycle but put no bound on
+// how DEEP an acyclic value may be (they start tracking a path at a fixed depth and
+// then follow the value as far as it goes).  The evaluator's nesting bound and the
+// frame-height check bound depth; these do not.
+var cycleOnlyGuards = map[string]bool{
+	"lisp.cycleGuard.descend":                     true,
+	"lisp.pairGuard.descend":                      true,
+	"lisp/lisplib/libjson.encodeGuard.enter":      true,
+	"lisp/lisplib/libelpspath.cycleGuard.descend": true,
+}
+
+// recCycleOnly: functions of a recursive component whose recursion is guarded by a
+// cycle-only guard (filled by runREC): name -> guard, position.
+type cycleOnlySite struct {
+	guard string
+	pos   token.Pos
+}
+
+var recCycleOnly = map[string]cycleOnlySite{}
+
 func ssaQualName(f *ssa.Function) string { return SSAFuncName(f) }
 
 // isGuardCall: the instruction is a static call to a guard function.
@@ -202,6 +222,7 @@ func runREC(c *Ctx) []Obligation {
 		return p != "" && strings.HasPrefix(p, modPath)
 	}
 	comps := callSCCs(cg, inModule)
+	recCycleOnly = map[string]cycleOnlySite{}
 	recursiveFns = map[*ssa.Function]bool{}
 	guardWrapperMemo = map[*ssa.Function]string{}
 	for _, comp := range comps {
@@ -336,6 +357,13 @@ func runREC(c *Ctx) []Obligation {
 			}
 			if all && nsites > 0 {
 				guarded[nd] = why
+				base := why
+				if i := strings.Index(base, " ("); i > 0 {
+					base = base[:i]
+				}
+				if cycleOnlyGuards[base] && relevantFn(nd.Func) {
+					recCycleOnly[SSAFuncName(nd.Func)] = cycleOnlySite{base, nd.Func.Pos()}
+				}
 			}
 		}
 		// residual graph
@@ -506,6 +534,22 @@ func init() {
 	register(&Rule{ID: "REC.guarded", Floor: 15,
 		Doc: "every recursive call-graph component over lisp values / parser input becomes acyclic once the functions whose intra-component calls are all dominated by a depth or cycle guard are removed; residual cycles must be audited with the bound that makes them finite",
 		Run: runREC})
+
+	register(&Rule{ID: "REC.depth-bounded", Floor: 1,
+		Doc: "a recursive walk over a lisp value is bounded in DEPTH, not only against cycles: its recursion is dominated by a guard that refuses to go deeper than a limit (the evaluator's nesting bound, the frame-height check, a depth counter with an error exit).  The cycle guards (cycleGuard / pairGuard / encodeGuard) start recording a path at depth 64 and then follow an acyclic value as far as it goes, at several hundred bytes of Go stack per level",
+		Run: func(c *Ctx) []Obligation {
+			runREC(c) // fills recCycleOnly
+			var obs []Obligation
+			for _, name := range sortedKeys(recCycleOnly) {
+				st := recCycleOnly[name]
+				obs = append(obs, Obligation{Rule: "REC.depth-bounded", Func: name, Construct: "recursion guarded against cycles only", Pos: c.Pos(st.pos), Verdict: Violated, Nontrivial: true,
+					Detail: "the recursion of this walk is guarded by " + st.guard + ", which detects a value that contains itself but does not limit how deep an acyclic value may be: a list nested a million and a half levels deep — built by a loop, at constant evaluation depth — overflows the 1 GB goroutine stack inside this walk and the Go runtime aborts the process (fatal error: stack overflow; recover() cannot catch it)"})
+			}
+			if len(obs) == 0 {
+				obs = append(obs, Obligation{Rule: "REC.depth-bounded", Func: "module", Construct: "no walk guarded against cycles only", Verdict: Proved, Detail: "every guarded recursion over lisp values is bounded in depth", Nontrivial: true})
+			}
+			return obs
+		}})
 
 	register(&Rule{ID: "GUARD.abandoned", Floor: 3,
 		Doc: "every walker that calls lisp.cycleGuard.descend first tests g.abandoned() and returns on it (stage 3 of the guard: without it a value that contains itself k times is unrolled k^depth times)",
